@@ -16,7 +16,16 @@ MIRROR = {"hpf": "a_hpf", "lpf": "a_lpf", "pid": "a_pid", "pid_fuzzy": "a_pid_fu
           "trajpoly7": "a_trajpoly7", "trajtrap": "a_trajtrap", "version": "a_version"}
 HEADERS = ["pid.h", "pid_fuzzy.h", "pid_neuro.h", "tf.h", "lpf.h", "hpf.h", "trajbell.h", "trajtrap.h", "trajpoly3.h", "trajpoly5.h", "trajpoly7.h",
            "regress_linear.h", "regress_simple.h", "version.h", "crc.h"]
-RUSTC = os.environ.get("RUSTC", "rustc")
+def find_rustc():
+    import shutil
+    cands = [os.environ.get("RUSTC"), shutil.which("rustc"), "/root/.cargo/bin/rustc", os.path.expanduser("~/.cargo/bin/rustc"), "/usr/local/bin/rustc", "/usr/bin/rustc"]
+    for c in cands:
+        if c and os.path.exists(c):
+            return c
+    return "rustc"
+
+
+RUSTC = find_rustc()
 
 
 def rust_structs(src):
